@@ -33,7 +33,8 @@ def sizeAt (d : Deme) (t : ETime) : SizeResult :=
       match t with
       | .inf => .exact 0   -- unreachable: no epoch contains ∞
       | .fin tq =>
-        if closeDefault tq e.endTime || e.sizeFunction = "constant" then .exact e.endSize
+        if closeDefault tq e.endTime || e.sizeFunction = "constant" || e.startSize = e.endSize then
+          .exact e.endSize
         else match e.startTime with
           | .inf => if e.sizeFunction = "exponential" || e.sizeFunction = "linear" then .nan else .indexError
           | .fin s =>
@@ -146,27 +147,21 @@ abbrev Renaming := List (String × String)
 def Renaming.get? (r : Renaming) (k : String) : Option String := (r.find? (fun kv => kv.1 = k)).map (·.2)
 def Renaming.apply (r : Renaming) (k : String) : String := (r.get? k).getD k
 
-/-- Python `d[k] = v` on the insertion-ordered name index -/
-def indexSet (idx : List (String × Nat)) (k : String) (v : Nat) : List (String × Nat) :=
-  if idx.any (fun kv => kv.1 = k) then idx.map (fun kv => if kv.1 = k then (k, v) else kv)
-  else idx ++ [(k, v)]
-
-def indexDel (idx : List (String × Nat)) (k : String) : List (String × Nat) :=
-  idx.filter (fun kv => kv.1 ≠ k)
-
-/-- the loop `for k, deme in list(graph._deme_map.items()): if k in names: del …; … = deme` -/
-def renameIndex (r : Renaming) (idx : List (String × Nat)) : List (String × Nat) :=
-  idx.foldl (fun cur kv =>
-    match r.get? kv.1 with
-    | some n => indexSet (indexDel cur kv.1) n kv.2
-    | none => cur) idx
+/-- `graph._deme_map = {deme.name: deme for deme in graph.demes}`: a dict comprehension —
+a repeated name keeps its first position in the key order and the last deme as value -/
+def rebuildIndex (demes : List Deme) : List (String × Nat) :=
+  (demes.zipIdx).foldl (fun idx (di : Deme × Nat) =>
+    if idx.any (fun kv => kv.1 = di.1.name) then
+      idx.map (fun kv => if kv.1 = di.1.name then (kv.1, di.2) else kv)
+    else idx ++ [(di.1.name, di.2)]) []
 
 /-- `Graph.rename_demes(names)` -/
 def renameDemes (g : Graph) (r : Renaming) : Graph :=
+  let demes := g.demes.map (fun d => { d with name := r.apply d.name, ancestors := d.ancestors.map r.apply })
   { g with
-    demes := g.demes.map (fun d => { d with name := r.apply d.name, ancestors := d.ancestors.map r.apply })
+    demes := demes
     migrations := g.migrations.map (fun m => { m with source := r.apply m.source, dest := r.apply m.dest })
     pulses := g.pulses.map (fun p => { p with sources := p.sources.map r.apply, dest := r.apply p.dest })
-    index := renameIndex r g.index }
+    index := rebuildIndex demes }
 
 end Demes
